@@ -360,6 +360,24 @@ func init() {
 		return res
 	})
 
+	reg("github.com/nyaruka/goflow/contactql.ParseQuery", func(fr *frame, args []value) value {
+		i := fr.i
+		p := i.prog.ImportedPackage("github.com/nyaruka/goflow/contactql")
+		model := p.Func("verifParseQuery")
+		if model == nil {
+			panic(unsupported{"contactql.ParseQuery: the generated ANTLR parser is not encoded and the parser model overlay is not loaded"})
+		}
+		res := i.callFn(fr, model, args[0], args[1], args[2]).(tuple)
+		if e, ok := res[1].(iface); ok && e.t != nil {
+			if g := p.Var("errVerifNonASCII"); g != nil {
+				if ge, ok := (*i.globals[g]).(iface); ok && ge.t != nil && e.v == ge.v {
+					panic(unsupported{"contactql.ParseQuery: non-ASCII query is outside the parser model"})
+				}
+			}
+		}
+		return res
+	})
+
 	// the phone number metadata (a 200 kB protobuf decoded at init) is not encoded
 	for _, n := range []string{"Parse", "ParseAndKeepRawInput", "ParseToNumber"} {
 		reg("github.com/nyaruka/phonenumbers."+n, func(fr *frame, args []value) value {
